@@ -181,26 +181,7 @@ func rulesC02(c *Ctx) {
 	// ---- (c) mutators
 	ix := c.P.BuildIndex()
 	rulesC02Round2(c, ix)
-	if fn := c.needFn("C02.mutate", "storage/mkvs.(*tree).Insert"); fn != nil {
-		c.successOnlyVia("C02.mutate", fn, CallsTo(fn, "doInsert", "storage/mkvs.(*tree).doInsert", ""), "every accepted insert performs the structural update (no value-dependent shortcut)")
-		c.OnAllSuccessExits("C02.mutate", fn, CallsTo(fn, "doInsert", "storage/mkvs.(*tree).doInsert", ""), CallsTo(fn, "setPendingRoot", "storage/mkvs.(*cache).setPendingRoot", ""), "the new root replaces the pending root")
-	}
-	if fn := c.needFn("C02.mutate", "storage/mkvs.(*tree).RemoveExisting"); fn != nil {
-		dr := CallsTo(fn, "doRemove", "storage/mkvs.(*tree).doRemove", "")
-		// fast path: only when the pending entry says the key was already removed (value == nil)
-		es := HeldEdges(fn, `\.value == nil$`)
-		cut, _ := successCut(dr)
-		cut.AddEdges(es...)
-		// a key longer than the maximum key length cannot have been inserted (Insert rejects it, C16.keylen)
-		if maxLen, ok := c.ConstInt("storage/mkvs/node", "MaxKeyLength"); ok {
-			cut.AddEdges(HeldEdges(fn, `^builtin\.len\(param:key\) > `+itoa(int(maxLen))+`$`)...)
-		}
-		for _, r := range Returns(fn) {
-			cut.AddEdges(phiNonNilEdges(r)...)
-		}
-		hit := Reach(fn, nil, nil, anyOf(SuccessReturns(fn)), cut)
-		c.Check(!dr.Empty() && hit == nil, "C02.mutate", fname(fn)+":success⇒doRemove✓∨already-removed", c.P.Pos(fn.Pos()), "a removal either performs the structural update, or the key is already removed in this batch (pending value == nil), or the key is longer than any key that can have been inserted", "RemoveExisting can succeed without the structural update on a path other than 'pending entry has a nil value' / 'key longer than MaxKeyLength'")
-	}
+	treeMutateRules(c, "C02.mutate")
 	// removal marker is nil, not empty
 	nilMarkerRule(c, "C02.mutate")
 	// pending state cleared only after the durable commit
@@ -291,4 +272,29 @@ func nilMarkerRule(c *Ctx, rule string) {
 			c.OK(rule, "writelog:removal-marker-is-nil", "", itoa(n)+" classifications of log/pending entries, all by nil-ness")
 		}
 		c.Floor(rule, n, 3, "nil-classifications of write-log/pending entries")
+}
+
+// treeMutateRules: an accepted Insert / RemoveExisting performs the structural update of the tree (shared by C02 — the
+// root is a function of the contents — and C03 — a read returns the last written value).
+func treeMutateRules(c *Ctx, rule string) {
+	if fn := c.needFn(rule, "storage/mkvs.(*tree).Insert"); fn != nil {
+		c.successOnlyVia(rule, fn, CallsTo(fn, "doInsert", "storage/mkvs.(*tree).doInsert", ""), "every accepted insert performs the structural update (no value-dependent shortcut)")
+		c.OnAllSuccessExits(rule, fn, CallsTo(fn, "doInsert", "storage/mkvs.(*tree).doInsert", ""), CallsTo(fn, "setPendingRoot", "storage/mkvs.(*cache).setPendingRoot", ""), "the new root replaces the pending root")
+	}
+	if fn := c.needFn(rule, "storage/mkvs.(*tree).RemoveExisting"); fn != nil {
+		dr := CallsTo(fn, "doRemove", "storage/mkvs.(*tree).doRemove", "")
+		// fast path: only when the pending entry says the key was already removed (value == nil)
+		es := HeldEdges(fn, `\.value == nil$`)
+		cut, _ := successCut(dr)
+		cut.AddEdges(es...)
+		// a key longer than the maximum key length cannot have been inserted (Insert rejects it, C16.keylen)
+		if maxLen, ok := c.ConstInt("storage/mkvs/node", "MaxKeyLength"); ok {
+			cut.AddEdges(HeldEdges(fn, `^builtin\.len\(param:key\) > `+itoa(int(maxLen))+`$`)...)
+		}
+		for _, r := range Returns(fn) {
+			cut.AddEdges(phiNonNilEdges(r)...)
+		}
+		hit := Reach(fn, nil, nil, anyOf(SuccessReturns(fn)), cut)
+		c.Check(!dr.Empty() && hit == nil, rule, fname(fn)+":success⇒doRemove✓∨already-removed", c.P.Pos(fn.Pos()), "a removal either performs the structural update, or the key is already removed in this batch (pending value == nil), or the key is longer than any key that can have been inserted", "RemoveExisting can succeed without the structural update on a path other than 'pending entry has a nil value' / 'key longer than MaxKeyLength'")
+	}
 }
